@@ -108,6 +108,30 @@ def answer (j : Json) : Json :=
       Json.mkObj [("designed", Json.bool designedHere),
         ("outcomes", Json.mkObj (Method.all.map (fun m => (methodName m, Json.arr (outs m).toArray))))]
     | _, _, _ => Json.mkObj [("error", "bad mode/stage/exc")]
+  | "routeRegion" =>
+    -- every outcome, per public method and over all call paths, of class `exc` raised inside region `region`
+    match findBy Mode.all modeName (getStr j "mode"), findBy Region.all regionName (getStr j "region"),
+          findBy Exc.all excName (getStr j "exc") with
+    | some mode, some r, some c =>
+      let top := getBool j "top"
+      let s : Sig := .exc c (bornTag r)
+      let designedHere := (born T mode false false r).contains s
+      let seed : St → List Sig := fun st => if st.1 = r then [s] else []
+      let F := flightIter T mode top seed rounds
+      let outs (m : Method) : List Json :=
+        ((roots m).flatMap (fun rt => (F.sigs (rt, top)).map (fun s => stepRegion T mode top top rt s))).foldl
+          (fun acc s =>
+            let j := Json.mkObj [("o", Json.str (outcomeName (outcome T top s))), ("tag", Json.str (tagName s.tag))]
+            if acc.contains j then acc else acc ++ [j]) []
+      Json.mkObj [("designed", Json.bool designedHere),
+        ("stage", match stageOf r with | some st => Json.str (stageName st) | none => Json.null),
+        ("outcomes", Json.mkObj (Method.all.map (fun m => (methodName m, Json.arr (outs m).toArray))))]
+    | _, _, _ => Json.mkObj [("error", "bad mode/region/exc")]
+  | "regions" =>
+    Json.mkObj (Region.all.map (fun r => (regionName r,
+      Json.mkObj [("stage", match stageOf r with | some st => Json.str (stageName st) | none => Json.null),
+                  ("wrappers", Json.arr ((wrappers r).map (fun w => Json.str (wrapperName w))).toArray),
+                  ("children", Json.arr ((children r).map (fun c => Json.str (regionName c))).toArray)])))
   | "routePath" =>
     match findBy Mode.all modeName (getStr j "mode"), findBy Region.all regionName (getStr j "root"),
           findBy Exc.all excName (getStr j "exc") with
